@@ -14,7 +14,8 @@ DT_TIMES = (_dt.datetime(2020, 1, 3, 12, 0), _dt.datetime(2020, 1, 3, 18, 30, 15
             _dt.datetime(2020, 1, 20, 23, 59, 59, 999000), _dt.datetime(2020, 1, 31, 0, 0), _dt.datetime(2020, 2, 2, 6, 45))
 WIDTHS = (20, 55)
 TEXTS = (None, "a%b", "<&>\"é")
-ENGINE = ({}, {"maxPos": 100}, {"maxPos": 70, "algorithm": "simple"}, {"algorithm": "none"})
+ENGINE = ({}, {"maxPos": 100}, {"maxPos": 70, "algorithm": "simple"}, {"algorithm": "none"},
+          {"maxPos": 90, "stubWidth": 0, "lineSpacing": 0})
 SIZES = (
     {"initialWidth": 400, "initialHeight": 400, "layerGap": 60},
     {"initialWidth": 137, "initialHeight": 211, "layerGap": 1, "labelPadding": {"left": 0, "right": 5, "top": 1, "bottom": 7},
